@@ -223,6 +223,15 @@ func (s *ReverseSuffixSearcher) Find(haystack []byte) *Match {
 
 		// Use reverse DFA to find match START position
 		matchStart := s.reverseDFA.SearchReverse(revCache, haystack, 0, revEnd)
+		if matchStart == lazy.SearchReverseLimitedQuadratic {
+			// Reverse DFA gave up (cache full or cleared mid-scan): this candidate can
+			// neither be confirmed nor rejected, so the forward NFA answers the search.
+			start, end, found := s.pikevm.Search(haystack)
+			if !found {
+				return nil
+			}
+			return NewMatch(start, end, haystack)
+		}
 		if matchStart >= 0 {
 			// Forward verification: get correct greedy match end.
 			matchEnd := s.forwardDFA.SearchAt(fwdCache, haystack, matchStart)
